@@ -567,6 +567,11 @@ func (q *BufferedChannelQueue[T]) loadFromPool() {
 		}
 
 		q.lock.Lock()
+		// Close() may have run since the check above: blockingQueue is closed then
+		if q.isClosed.Get() {
+			q.lock.Unlock()
+			break
+		}
 
 		var val T
 		var pollErr, offerErr error
@@ -593,6 +598,13 @@ func (q *BufferedChannelQueue[T]) loadFromPool() {
 }
 
 func (q *BufferedChannelQueue[T]) notifyWorkers() {
+	// Close() closes loadWorkerCh under the write lock: never offer to it once the queue is closed
+	q.lock.RLock()
+	defer q.lock.RUnlock()
+	if q.isClosed.Get() {
+		return
+	}
+
 	q.loadWorkerCh.Offer(1)
 	q.freeNodeWorkerCh.Offer(1)
 }
